@@ -28,8 +28,9 @@ def S(**kw):
     d.update(kw); d['subst'] = CALLS_REF + sub + TY
     return d
 # INT variants: the same text lowered a second time with the retry loops cut by invariants (xv cuts loops per lowered function, so a function
-# that is verified both with complete unwinding (SEQ) and with loop cuts (INT) appears twice); calls go to the cut variants
-INT_CALLS = [(r'\bsq_(set_mark_flag|mark_next|remove_from_prev_list|remove_from_next_list|remove_or_skip_marked_block|update_tail_stamp|add_global2)\b', r'sqi_\1', 'int_variant_call')]
+# that is verified both with complete unwinding (SEQ) and with loop cuts (INT) appears twice); calls go through SQI_<name> macros, which the harness
+# maps to the cut variants (or, for run remove_int, to contract stubs of the callees that have their own INT runs)
+INT_CALLS = [(r'\bsq_(set_mark_flag|mark_next|remove_from_prev_list|remove_from_next_list|remove_or_skip_marked_block|update_tail_stamp|add_global2)\b', r'SQI_\1', 'int_variant_call')]
 def SI(cut, **kw):
     d = S(**kw)
     d['id'] += '_i'; d['c_sig'] = d['c_sig'].replace(' sq_', ' sqi_', 1); d['cut_loops'] = cut
@@ -99,7 +100,7 @@ SYNC = [
   ORD('14', r'auto last = tail->next\.load\(' + MO + r'\)'),
   ORD('15', r'auto last_prev = last->prev\.load\(' + MO + r'\)'),
   ORD('16', r'tail->stamp\.compare_exchange_weak\(tail_stamp, stamp, ' + MO + r'\)'),
-  ORD('17', IN_RFPL + r'prev = prev->prev\.load\(' + MO + r'\)'),
+  ORD('17', IN_RFPL + r'\sprev = prev->prev\.load\(' + MO + r'\)'),
   ORD('18', IN_RFPL + r'auto next_prev = next->prev\.load\(' + MO + r'\)'),
   ORD('19', IN_RFPL + r'auto next_stamp = next->stamp\.load\(' + MO + r'\)'),
   ORD('20', IN_RFPL + r'next = next->next\.load\(' + MO + r'\)'),
@@ -108,7 +109,7 @@ SYNC = [
   ORD('23', IN_RFNL + r'auto next_stamp = next->stamp\.load\(' + MO + r'\)'),
   ORD('24', IN_RFNL + r'next = next->next\.load\(' + MO + r'\)'),
   ORD('25', r'auto prev_next = prev->next\.load\(' + MO + r'\)'),
-  ORD('26', IN_RFNL + r'prev = prev->prev\.load\(' + MO + r'\)'),
+  ORD('26', IN_RFNL + r'\sprev = prev->prev\.load\(' + MO + r'\)'),
   ORD('27', r'prev->next\.compare_exchange_weak\(prev_next, new_next, ' + MO + r', std::memory_order_\w+\)'),
   ORD('28', r'last->prev\.compare_exchange_strong\(\s*next, make_marked\(next_prev\.get\(\), next\), ' + MO + r', std::memory_order_\w+\)'),
   ORD('29', IN_ROS + r'next = next->next\.load\(' + MO + r'\)'),
@@ -171,7 +172,7 @@ UNIT = dict(
     dict(id='marks', entry='h_marks', cls='unbounded', note='make_marked / make_clean_marked on arbitrary words'),
     dict(id='stamps', entry='h_stamps', cls='unbounded', note='head_stamp() / tail_stamp(): one load each, nothing written'),
     dict(id='sync', entry='h_sync', cls='unbounded', note='the memory orders written at the 32 annotated synchronisation points (extracted from the text) are at least what the comments require'),
-    dict(id='mark', entry='h_mark', unwindset=UW_SEQ, defs={'XV_OBS': 1}, cls='unbounded', note='set_mark_flag / mark_next on an arbitrary cell of an arbitrary pool; SEQ: the retry loops end in their first iteration'),
+    dict(id='mark', entry='h_mark', unwindset=UW_SEQ, cls='unbounded', note='set_mark_flag / mark_next on an arbitrary cell of an arbitrary pool; SEQ: the retry loops end in their first iteration'),
     dict(id='ctor', entry='h_ctor', cls='unbounded'),
     dict(id='push', entry='h_push', unwindset=UW_SEQ, cls='shape-complete', unwind_obligation='stampq.push.terminates',
          note='SEQ, any quiescent queue of 0..3 blocks (arbitrary stamps/tags), arbitrary leftovers in the pushed block; loops unwound completely'),
@@ -179,9 +180,14 @@ UNIT = dict(
          note='SEQ, any block of any quiescent queue of 1..3 blocks; loops unwound completely'),
     dict(id='global', entry='h_global', unwindset=UW_SEQ, cls='unbounded', note='add_to_global_retired_nodes (both overloads) / steal_global_retired_nodes, SEQ'),
     dict(id='global_int', entry='h_global_int', mode='INT', cls='unbounded', note='other threads replace the global list head at any time; CAS retry loop cut by invariant ADDG'),
-    dict(id='push_int', entry='h_push_int', mode='INT', defs={'XV_OBS': 1}, cls='unbounded', note='push under the rely "any well-typed write to any cell at any time" (own stamp: only helping); both loops cut by invariants'),
-    dict(id='remove_int', entry='h_remove_int', mode='INT', cls='unbounded', defs={'XV_CANARY_CAS': 1, 'XV_OBS': 1},
-         note='remove with all helpers under the same rely; all six retry loops cut by invariants: every CAS attempt of every path is checked by the monitors'),
+    dict(id='push_int', entry='h_push_int', mode='INT', cls='unbounded', note='push under the rely "any well-typed write to any cell at any time" (own stamp: only helping); both loops cut by invariants'),
+    dict(id='mark_int', entry='h_mark_int', mode='INT', cls='unbounded', timeout=300, note='set_mark_flag / mark_next under the rely; retry loops cut by invariants SMF / MN'),
+    dict(id='uts_int', entry='h_uts_int', mode='INT', cls='unbounded', timeout=300, note='update_tail_stamp under the rely; CAS loop cut by invariant UTS'),
+    dict(id='rfpl_int', entry='h_rfpl_int', mode='INT', cls='unbounded', timeout=300, defs={'XV_CANARY_RFPL': 1},
+         note='remove_from_prev_list with its helpers (mark_next, remove_or_skip_marked_block, save_next_as_last...) from arbitrary arguments under the rely; loop cut by invariant RFPL: every CAS attempt of every path of one arbitrary iteration is checked by the monitors'),
+    dict(id='rfnl_int', entry='h_rfnl_int', mode='INT', cls='unbounded', timeout=300, defs={'XV_CANARY_RFNL': 1}, note='remove_from_next_list likewise (invariant RFNL)'),
+    dict(id='remove_int', entry='h_remove_int', mode='INT', cls='unbounded', timeout=300, defs={'XV_STUB_CALLEES': 1},
+         note='remove itself under the rely, its five callees replaced by contract stubs (they have their own INT runs)'),
   ],
   obligations={
     'stampq.encoding.flags': dict(deciding=True, text='NotInList, PendingPush < StampInc are distinct powers of two; DeleteMark is bit 0 below TagInc; push\'s pending stamp s-(StampInc-PendingPush) has PendingPush and not NotInList, lies strictly between s-StampInc and s, and the helping increment restores s'),
@@ -218,5 +224,7 @@ UNIT = dict(
             'global.add_nonempty', 'global.add_empty', 'global.add_single', 'global.steal_some', 'global.steal_none',
             'global_int.add_done', 'global_int.add_retried', 'global_int.steal_some', 'global_int.steal_none', 'global_int.steal_raced',
             'push_int.done', 'push_int.linked_next', 'push_int.next_left_to_helpers', 'remove_int.true', 'remove_int.false',
-            'int.link_prev_cas', 'int.link_next_cas', 'int.mark_cas', 'int.help_cas', 'int.tail_stamp_cas', 'int.head_prev_bump', 'int.cas_failed'],
+            'mark_int.set_new', 'mark_int.set_already', 'mark_int.next_true', 'mark_int.next_false', 'uts_int.raised', 'uts_int.not_raised', 'uts_int.head_prev_bump',
+            'rfpl_int.true', 'rfpl_int.false', 'rfpl_int.link_prev_cas', 'rfpl_int.mark_next_cas', 'rfpl_int.help_cas', 'rfpl_int.cas_failed',
+            'rfnl_int.done', 'rfnl_int.link_prev_cas', 'rfnl_int.link_next_cas', 'rfnl_int.mark_next_cas', 'rfnl_int.help_cas'],
 )
